@@ -158,10 +158,28 @@ def run(ctx):
     # and whatever a fill routine computes FROM the coordinates (pairs, offsets) must not wrap; rows sit at both ends
     for ext in ((200,), (255,), (130,), (300,), (129, 2)) + (((40000,),) if ctx.tier == "thorough" else ()):
         for ign in (False, True):
-            case = A.gen_case(ctx.rng, wide="u16" if max(ext) > 256 else "u8", wide_extents=ext)
+            for _try in range(60):      # one-column facts under propagation, several columns when ignoring: on every run
+                case = A.gen_case(ctx.rng, wide="u16" if max(ext) > 256 else "u8", wide_extents=ext)
+                if (case["K"] is None) == (not ign) and 0 < int(np.count_nonzero(~case["fact_valid"])) < case["fact_valid"].size:
+                    break
             case["ignore"] = ign
             ctx.hit("wide_extents_fixed")
             check(ctx, case, reqs, pend)
+    # ONE fact array object (NaN-marked, float, unweighted) handed to every call of the case - index cube first, then the array
+    # cube, every aggregate, every format: a call that writes into it changes what the later ones see.  On every run.
+    for rep in range(4):
+        for _try in range(60):
+            case = A.gen_case(ctx.rng, k=ctx.rng.choice([1, 2]), N=ctx.rng.choice([8, 13]))
+            nv = int(np.count_nonzero(~case["fact_valid"]))
+            if 0 < nv < case["fact_valid"].size:
+                break
+        case["fact_form"] = "nan"
+        case["fact_vals"] = case["fact_vals"].astype(float)
+        case["weights"] = None
+        case["ignore"] = rep % 2 == 1
+        case["share_args"] = True
+        ctx.hit("shared_nan_marked_fact")
+        check(ctx, case, reqs, pend)
     from props import c03
     c03.tiny_weights(ctx, prefix="C04")     # a mean is missing when the valid weights sum to ZERO - not when they are merely small
     if ctx.oracle_only:
